@@ -78,7 +78,16 @@ func NewMemoryCache[MetadataT any](cfg *config.Config, memoryBudgetPercent int, 
 			c.mu.RUnlock()
 
 			for key, entry := range snapshot {
-				if !yield(key, entry.meta) {
+				// Get/UpdateMetadata write the metadata under the entry's lock, so read it under that lock too.
+				// TryRLock: the scan may run inside Cache(), which already holds a shard lock.
+				lock := getLock(c.locks, key)
+				if !lock.TryRLock() {
+					continue // in use right now; the next scan will see it
+				}
+				meta := *entry.meta
+				lock.RUnlock()
+
+				if !yield(key, &meta) {
 					break
 				}
 			}
